@@ -311,18 +311,28 @@ class C21(Property):
             elif chk == "ensemble":
                 import abtem
 
-                vals = [ufx(v) for v in c["values"]]
                 sym = c["symbol"]
                 alpha = arr(c["alpha"], (3, 4))
                 phi = arr(c["phi"], (3, 4))
                 base = dict(co)
                 base.pop(sym, None)
-                e = np.asarray(tr.Aberrations(aberration_coefficients=dict(base, **{sym: abtem.distributions.from_values(vals)}),
-                                              energy=energy)._evaluate_from_angular_grid(alpha, phi))
-                for i, v in enumerate(vals):
-                    s = np.asarray(tr.Aberrations(aberration_coefficients=dict(base, **{sym: v}), energy=energy)._evaluate_from_angular_grid(alpha, phi))
-                    if e.shape != (len(vals), 3, 4) or np.abs(e[i] - s).max() > 10 * tol:
-                        return ctx.violation("aberration-ensemble-member-differs-from-scalar-run", c, {"shape": list(e.shape), "member": i})
+                if c.get("gaussian"):
+                    dist = abtem.distributions.gaussian(ufx(c["gaussian"][0]), int(c["gaussian"][1]))
+                else:
+                    dist = abtem.distributions.from_values([ufx(v) for v in c["values"]],
+                                                           weights=None if c.get("weights") is None else np.array([ufx(w) for w in c["weights"]]))
+                vals = [float(v) for v in dist.values]
+                wts = [float(w) for w in dist.weights]
+                e = np.asarray(tr.Aberrations(aberration_coefficients=dict(base, **{sym: dist}), energy=energy)._evaluate_from_angular_grid(alpha, phi))
+                if e.shape != (len(vals), 3, 4):
+                    return ctx.violation("aberration-ensemble-has-wrong-shape", c, {"shape": list(e.shape)})
+                for i, (v, w) in enumerate(zip(vals, wts)):
+                    s1 = np.asarray(tr.Aberrations(aberration_coefficients=dict(base, **{sym: v}), energy=energy)._evaluate_from_angular_grid(alpha, phi))
+                    # member i = weight_i x scalar run i (the distribution weights multiply the kernel), so |member i| = weight_i
+                    if np.abs(e[i] - w * s1).max() > 10 * tol * max(1.0, abs(w)):
+                        return ctx.violation("aberration-ensemble-member-differs-from-weighted-scalar-run", c, {"member": i, "weight": w})
+                    if np.abs(np.abs(e[i]) - abs(w)).max() > 10 * tol * max(1.0, abs(w)):
+                        return ctx.violation("aberration-ensemble-member-modulus-is-not-its-weight", c, {"member": i, "weight": w})
             else:
                 raise ValueError(chk)
 
@@ -367,6 +377,10 @@ class C21(Property):
             c["symbol"] = rng.choice(POLAR)
             scale = math.pi if c["symbol"].startswith("phi") else SCALE[int(c["symbol"][1])] * (1e-3 if prec == "float32" else 1)
             c["values"] = [fx(rng.uniform(-1, 1) * scale) for _ in range(rng.randint(1, 3))]
+            mode = rng.choice(["unit", "weighted", "weighted", "gaussian"])
+            c["weights"] = [fx(rng.uniform(0.05, 2.0)) for _ in c["values"]] if mode == "weighted" else None
+            if mode == "gaussian":
+                c["gaussian"] = [fx(abs(rng.uniform(0.05, 1)) * scale), rng.randint(2, 5)]
         return c
 
     def conformance(self, ctx: Ctx):
